@@ -49,10 +49,10 @@ AttributeListImpl::AttributeListImpl(MemoryManager&      theManager) :
 
 AttributeListImpl::~AttributeListImpl()
 {
-    // Clean up everything...
-    clear();
-
-    assert(m_AttributeVector.empty() == true);
+    // Clean up everything.  Don't call clear(), because it
+    // moves the entries to the cache, which may need to
+    // allocate memory, and that must not fail in a destructor.
+    deleteEntries(m_AttributeVector);
 
     deleteEntries(m_cacheVector);
 }
